@@ -28,6 +28,7 @@
 ;;;;;;;;;;;;;;;;;;;;;;;;;;;;;;;;;;;;;;;;;;;;;;;;;;;;;;;;;;;;;;;;;;;;;;;;
 
 %include "reg_sizes.asm"
+%include "clear_regs.inc"
 
 [bits 64]
 default rel
@@ -186,6 +187,10 @@ _aes_keyexp_192_sse:
      key_dec_192_sse 10
      key_dec_192_sse 11
 
+%ifdef SAFE_DATA
+	clear_scratch_xmms_sse_asm
+%endif
+
 %ifnidn __OUTPUT_FORMAT__, elf64
 	movdqu	xmm6, [rsp + 0*16]
 	movdqu	xmm7, [rsp + 1*16]
@@ -264,6 +269,10 @@ _aes_keyexp_192_avx:
      key_dec_192_avx 9
      key_dec_192_avx 10
      key_dec_192_avx 11
+
+%ifdef SAFE_DATA
+	clear_scratch_xmms_avx_asm
+%endif
 
 %ifnidn __OUTPUT_FORMAT__, elf64
 	vmovdqu	xmm6, [rsp + 0*16]
